@@ -8,7 +8,7 @@ So root LinearBlockGS calls ga's linear solver; ga's right-hand side contains d 
 transfer from c21 when c21 is matrix free: compute_jacvec_product fills d_inputs['y20']); ga's solver skips both
 components and can never reduce its residual; the root solver's norm sees the same entry.  With relevance disabled
 (OPENMDAO_NO_RELEVANCE=1) everything converges in 2 sweeps.
-usage: python repro-s1-empty-group.py [mf|exp] [lnbgs|krylov]
+usage: python repro-s1-hollow-group.py [mf|exp] [lnbgs|krylov]
 """
 import sys
 import numpy as np
